@@ -321,15 +321,18 @@ def rule_mode(ctx, px):
         ctx.ob(R, f.module.rel, f"{f.short} :: SetFileMode(self._args.file_mode)", ok, "" if ok else arg, st.lineno)
     # returned list is the one appended to
     rets = [r for r in ast.walk(f.node) if isinstance(r, ast.Return) and r.value is not None]
-    ok = bool(rets) and all(ast.unparse(r.value) == "post_processors" for r in rets)
+    receivers = {ast.unparse(st.value.func.value) for st, _g in appends}
+    ok = bool(rets) and len(receivers) == 1 and all(ast.unparse(r.value) in receivers for r in rets)
     ctx.ob(R, f.module.rel, f"{f.short} :: returns the list it built", ok, "", f.node.lineno)
 
     # file post-processors after close
     for qual in ("CodeGenerator._generate_code", "SupportGenerator._copy_header"):
         g = px.func(GEN_MOD, qual)
-        loops = [n for n in ast.walk(g.node) if isinstance(n, ast.For) and ast.unparse(n.iter) == "file_pps"]
+        # the file post-processor loop: `for pp in <list>: <path> = pp(<path>)` (the loop variable is applied as a function)
+        loops = [n for n in ast.walk(g.node) if isinstance(n, ast.For) and isinstance(n.target, ast.Name) and isinstance(n.iter, ast.Name)
+                 and any(isinstance(c, ast.Call) and isinstance(c.func, ast.Name) and c.func.id == n.target.id for c in ast.walk(n))]
         if len(loops) != 1:
-            raise AnalysisError(f"anchor missing: `for .. in file_pps` in {qual} (found {len(loops)})")
+            raise AnalysisError(f"anchor missing: loop applying the file post-processors in {qual} (found {len(loops)})")
         loop = loops[0]
         pm = pyfront.parent_map(g.node)
         # not nested in a `with open(...)`
@@ -368,7 +371,8 @@ def rule_mode(ctx, px):
         if ok:
             lp = loops[0]
             ifs = [s for s in lp.body if isinstance(s, ast.If)]
-            ok = len(ifs) == 1 and "FilePostProcessor" in ast.unparse(ifs[0]) and "file_pps.append" in ast.unparse(ifs[0]) \
+            ok = len(ifs) == 1 and "FilePostProcessor" in ast.unparse(ifs[0].test if not ifs[0].orelse else ifs[0]) and \
+                sum(1 for c in ast.walk(ifs[0]) if isinstance(c, ast.Call) and isinstance(c.func, ast.Attribute) and c.func.attr == "append") >= 2 \
                 and any(isinstance(x, ast.Raise) for x in ast.walk(ifs[0]))
         ctx.ob(R, g.module.rel, f"{g.short} :: every configured post-processor is classified (unknown kinds raise)", ok,
                "" if ok else "post-processor partition changed", g.node.lineno)
